@@ -143,10 +143,23 @@ func verifyFunction(P *Program, CS *ContractSet, L *Layout, ct *FuncContract, op
 		}
 		vc.obls = kept
 	}
+	for i := range ct.SortedBy {
+		if ct.SortedBy[i].Seen == 0 {
+			vc.addObl(&Obligation{Name: vc.key + "/contract-target-missing[sorted " + ct.SortedBy[i].Name + "]", Kind: "target", Goal: "false",
+				Src: "the sort call on " + ct.SortedBy[i].Name + " that a `sorted ... by` clause is attached to no longer exists"})
+		}
+		ct.SortedBy[i].Seen = 0
+	}
 	for callee := range ct.AtCall {
 		if vc.atCallSeen[callee] == 0 {
 			vc.addObl(&Obligation{Name: vc.key + "/contract-target-missing[at-call " + callee + "]", Kind: "target", Goal: "false",
 				Src: "the call of " + callee + " that an at-call assertion is attached to no longer exists"})
+		}
+	}
+	for _, c := range ct.Covers {
+		if !vc.coverSeen[c.Label] {
+			vc.addObl(&Obligation{Name: vc.key + "/contract-target-missing[reachable " + c.Label + "]", Kind: "target", Goal: "false",
+				Src: fmt.Sprintf("the statement %q that a reachable clause is attached to no longer exists", c.Text)})
 		}
 	}
 	// vacuity: the context (requires + assumed facts) must be satisfiable with some return reachable
@@ -198,6 +211,9 @@ func verifyFunction(P *Program, CS *ContractSet, L *Layout, ct *FuncContract, op
 			if (o.Kind == "vacuity" || o.Kind == "reach") && to > 10 {
 				to = 10
 			}
+			if o.Kind == "cover" && to > 20 {
+				to = 20 // only a refutation counts; a live statement usually ends in `unknown`
+			}
 			res := RunSolvers(rep.File, to, opts.All && o.Kind != "vacuity" && o.Kind != "reach")
 			rep.Solver, rep.MS, rep.Output, rep.All = res.Solver, res.MS, res.Output, res.All
 			switch {
@@ -208,6 +224,18 @@ func verifyFunction(P *Program, CS *ContractSet, L *Layout, ct *FuncContract, op
 				// of a contract expression, never a verdict about the code
 				rep.Verdict = "tool-error"
 				rep.Src = "every solver rejected the query: " + strings.TrimSpace(strings.SplitN(res.Output, "\n", 2)[0]) + "  -- clause: " + rep.Src
+			case o.Expect == "sat" && o.Kind == "cover":
+				// reachable[label]: only a PROOF that the statement is dead fails the obligation
+				switch res.Verdict {
+				case "unsat":
+					rep.Verdict = "dead-code"
+					rep.Output = "the solver proved the path condition of the statement unsatisfiable under the contracts\n" + rep.Output
+				case "sat":
+					rep.Verdict = "discharged"
+				default:
+					rep.Verdict = "discharged"
+					rep.Src += "  (solver: " + res.Verdict + " - not refuted)"
+				}
 			case o.Expect == "sat":
 				// vacuity: sat = fine; unsat = vacuous; unknown = tolerated (quantifiers) but recorded
 				switch res.Verdict {
@@ -330,6 +358,13 @@ func RunCheck(opts CheckOpts) int {
 		fmt.Fprintf(os.Stderr, "no contracts serve property %s\n", opts.Prop)
 		return 2
 	}
+	var writerDecls []*WriterDecl
+	for _, w := range CS.Writers {
+		if w.Prop == opts.Prop && (opts.OnlyFunc == "" || strings.Contains("writers", opts.OnlyFunc)) {
+			writerDecls = append(writerDecls, w)
+			pkgSet[w.Pkg] = true
+		}
+	}
 	tl := time.Now()
 	P, err := LoadProgram(sortedKeys(pkgSet), nil)
 	if err != nil {
@@ -349,6 +384,9 @@ func RunCheck(opts CheckOpts) int {
 		mu.Unlock()
 	}
 	wg.Wait()
+	for _, w := range writerDecls {
+		reports = append(reports, checkWriters(P, w))
+	}
 	return finishCheck(opts, CS, reports, assumedAll, loadMS, t0)
 }
 
